@@ -21,7 +21,7 @@ import re
 import time
 
 from . import box as boxmod
-from . import common, gen
+from . import common, corpus, gen
 
 PROP = "C20"
 LEVEL = "exploration"
@@ -395,8 +395,9 @@ def replay(path):
     bx = common.worker_box()
     if any('#mod("core")' in t for t in doc["base_files"].values()):
         bx.use_real_core()
-    b = build_and_run(bx, doc["base_files"], world=doc.get("world"))
-    v = build_and_run(bx, doc["variant_files"], world=doc.get("world"))
+    entry = doc.get("entry", "main.capy")
+    b = build_and_run(bx, doc["base_files"], entry=entry, world=doc.get("world"))
+    v = build_and_run(bx, doc["variant_files"], entry=entry, world=doc.get("world"))
     d = compare(b, v) if b["accepted"] else None
     print("base:    accepted=%s exit=%s stdout=%r" % (b["accepted"], b["run_exit"], (b["run_stdout"] or "")[:120]))
     print("variant: accepted=%s exit=%s stdout=%r errors=%s" % (
@@ -410,6 +411,91 @@ def replay(path):
 
 
 # ------------------------------------------------------------------------------------------
+
+# ------------------------------------------------------------------------------------------
+# corpus family: the repository's own programs (examples/, the sources inside its test suites)
+# under permutations of their top-level definitions
+
+def corpus_programs():
+    """-> list of (label, files, entry, uses_core)"""
+    out = []
+    exdir = os.path.join(common.REPO, "examples")
+    try:
+        names = sorted(f for f in os.listdir(exdir) if f.endswith(".capy"))
+    except OSError:
+        names = []
+    exfiles = {}
+    for f in names:
+        with open(os.path.join(exdir, f), encoding="utf-8") as fh:
+            exfiles[f] = fh.read()
+    for f in names:
+        if corpus.split_items(exfiles[f]) is not None:
+            out.append(("example:" + f, exfiles, f, True))
+    for label, files, uses_core in corpus.snippets():
+        if corpus.split_items(files["main.capy"]) is None:
+            continue
+        files = dict(files)
+        if not re.search(r"^main\s*:", files["main.capy"], re.M):
+            # the type-checker tests have no entry point; give them an empty one
+            files["main.capy"] = files["main.capy"].rstrip("\n") + "\n\nmain :: () {}\n"
+        out.append(("snippet:" + label, files, "main.capy", uses_core))
+    return out
+
+
+SHIFTED_WORLD = dict(boxmod.REFERENCE_WORLD, env_pad=4096, hole_brk=1 << 20, hole_mmap=1 << 21)
+
+
+def corpus_task(t):
+    seed, idx, k = t
+    label, files, entry, uses_core = corpus_programs()[idx]
+    rnd = random.Random(common.sub_seed(seed, "c20-corpus", idx))
+    bx = common.worker_box()
+    if uses_core:
+        bx.use_real_core()
+    base = build_and_run(bx, files, entry=entry)
+    r = {"idx": idx, "label": label, "base_accepted": base["accepted"], "variants": 0,
+         "sigs": [base["sched_sig"]], "divergences": [], "discarded": None}
+    if base["accepted"] and (base["run_exit"] is None or base["run_exit"] < 0 or base.get("run_timed_out")):
+        r["discarded"] = "executable killed by a signal or timed out"
+        r["base_accepted"] = False
+        return r
+    if base["accepted"]:
+        # a program whose output depends on addresses (it prints pointers) cannot be compared
+        again = build_and_run(bx, files, entry=entry, world=SHIFTED_WORLD, want_trace=False)
+        if compare(base, again):
+            r["discarded"] = "output depends on the address-space layout"
+            r["base_accepted"] = False
+            return r
+    if base["timed_out"]:
+        r["discarded"] = "compiler timed out"
+        return r
+    for j in range(k):
+        text = corpus.permute(files[entry], rnd)
+        if text is None:
+            break
+        vfiles = dict(files)
+        vfiles[entry] = text
+        var = build_and_run(bx, vfiles, entry=entry)
+        r["variants"] += 1
+        r["sigs"].append(var["sched_sig"])
+        if base["accepted"]:
+            d = compare(base, var)
+            if d == "variant-timeout":
+                var = build_and_run(bx, vfiles, entry=entry)
+                d = compare(base, var)
+            if d:
+                r["divergences"].append({"variant_index": j, "class": d, "base_files": files,
+                                         "variant_files": vfiles, "base": public(base), "var": public(var),
+                                         "entry": entry})
+        elif var["accepted"] and var["run_exit"] is not None and var["run_exit"] >= 0:
+            # the order as written is rejected, another order of the same definitions is accepted
+            d = compare(var, base) or "variant-rejected"
+            r["divergences"].append({"variant_index": j, "class": d, "swapped": True, "base_files": vfiles,
+                                     "variant_files": files, "base": public(var), "var": public(base),
+                                     "entry": entry})
+            break
+    return r
+
 
 def run_batch(seed, n_programs, k, traces_dir=None, deadline=None, max_files=3):
     tasks = [(seed, i, k, traces_dir, max_files) for i in range(n_programs)]
@@ -427,6 +513,18 @@ def main(tier, seed, replay_path=None):
     n_programs = int(os.environ.get("C20_PROGRAMS", n_programs))
     results = run_batch(seed, n_programs, k, deadline=t0 + budget_s)
     open_findings, _fixed = common.load_known_findings(PROP)
+
+    # the repository's own programs under permutations of their top-level definitions
+    n_corpus_all = len(corpus_programs())
+    if tier == "quick":
+        n_corpus, k_corpus, corpus_budget = min(70, n_corpus_all), 3, 75
+    else:
+        n_corpus, k_corpus, corpus_budget = n_corpus_all, 12, 1500
+    n_corpus = int(os.environ.get("C20_CORPUS", n_corpus))
+    pick = random.Random(common.sub_seed(seed, "c20-corpus-pick"))
+    corpus_idx = sorted(pick.sample(range(n_corpus_all), min(n_corpus, n_corpus_all)))
+    corpus_results = common.parallel_map(corpus_task, [(seed, i, k_corpus) for i in corpus_idx],
+                                         deadline=time.time() + corpus_budget) if corpus_idx else []
 
     programs = len(results)
     accepted = [r for r in results if r["base_accepted"]]
@@ -453,6 +551,12 @@ def main(tier, seed, replay_path=None):
             else:
                 violations.append((r["idx"], r["klass"], d))
 
+    corpus_divs = 0
+    for r in corpus_results:
+        for d in r["divergences"]:
+            corpus_divs += 1
+            violations.append((("corpus", r["idx"], r["label"]), "corpus", d))
+
     for fid, hits in sorted(known_hits.items()):
         e = [x for x in open_findings if x["id"] == fid][0]
         common.report_known(PROP, "%s: %s (re-observed on %d variants, e.g. program %d)" % (
@@ -474,7 +578,18 @@ def main(tier, seed, replay_path=None):
     reported = []
     for key in sorted(groups):
         idx, klass, d = groups[key][0]
-        doc = minimise(seed, idx, d) if len(reported) < 6 else None
+        is_corpus = isinstance(idx, tuple)
+        doc = minimise(seed, idx, d) if (len(reported) < 6 and not is_corpus) else None
+        if is_corpus:
+            doc = {
+                "format": "capysim-c20-replay-v1", "property": PROP, "seed": seed,
+                "program_index": idx[1], "corpus_label": idx[2], "class": d["class"],
+                "program_class": "corpus", "world": boxmod.REFERENCE_WORLD, "entry": d["entry"],
+                "base_files": d["base_files"], "variant_files": d["variant_files"],
+                "base_outcome": d["base"], "variant_outcome": d["var"], "minimised": False,
+                "swapped": bool(d.get("swapped")),
+            }
+            idx = "corpus%d" % idx[1]
         if doc is None:
             doc = {
                 "format": "capysim-c20-replay-v1", "property": PROP, "seed": seed,
@@ -484,10 +599,10 @@ def main(tier, seed, replay_path=None):
                 "variant_order": d["variant"]["order"],
                 "base_outcome": d["base"], "variant_outcome": d["var"], "minimised": False,
             }
-        doc["same_group_programs"] = [i for i, _, _ in groups[key]][:50]
-        path = common.write_replay(PROP, "c20-seed%d-p%d-v%d-%s.json" % (
+        doc["same_group_programs"] = [str(i) for i, _, _ in groups[key]][:50]
+        path = common.write_replay(PROP, "c20-seed%d-p%s-v%d-%s.json" % (
             seed, idx, d["variant_index"], d["class"]), doc)
-        summary = "%s on program %d (class %s), %d variants alike: %s" % (
+        summary = "%s on program %s (class %s), %d variants alike: %s" % (
             d["class"], idx, klass, len(groups[key]),
             (doc["variant_outcome"]["errors"] or
              [(doc["variant_outcome"].get("compile_stdout_tail") or "")[-160:].replace("\n", " | ")])[0])
@@ -536,7 +651,19 @@ def main(tier, seed, replay_path=None):
         "programs_class_A": len([r for r in accepted if r["klass"] == "A"]),
         "programs_class_B": len([r for r in accepted if r["klass"] == "B"]),
         "feature_counts": feature_counts,
-        "divergences_total": sum(len(r["divergences"]) for r in results),
+        "corpus_family": {
+            "programs_available": n_corpus_all,
+            "programs_run": len(corpus_results),
+            "programs_accepted_in_written_order": len([r for r in corpus_results if r["base_accepted"]]),
+            "programs_discarded": len([r for r in corpus_results if r["discarded"]]),
+            "permutations_built": sum(r["variants"] for r in corpus_results),
+            "divergences": corpus_divs,
+            "note": "examples/ and the capy sources inside the repository's own test suites (read "
+                    "from /repo at run time), each compared with permutations of its top-level "
+                    "definitions; programs that are rejected as written are still permuted "
+                    "(an accepted permutation would be a divergence)",
+        },
+        "divergences_total": sum(len(r["divergences"]) for r in results) + corpus_divs,
         "divergences_matching_known_findings": sum(len(v) for v in known_hits.values()),
         "runs_per_hour": int((programs + variants) / max(wall, 1e-9) * 3600),
         "simulated_components": {
@@ -553,6 +680,8 @@ def main(tier, seed, replay_path=None):
          "generator G's programs are well-typed capy (calibrated on the unchanged tree)",
          "sampling, not enumeration: a clean batch is evidence, not proof"],
         wall, len(violations))
+    print("C20 %s: corpus family: %d programs, %d permutations, %d divergences" % (
+        tier, len(corpus_results), sum(r["variants"] for r in corpus_results), corpus_divs))
     print("C20 %s: %d programs (%d accepted), %d variants, %d distinct schedules, %d divergences "
           "(%d known), %.0fs" % (tier, programs, len(accepted), variants, len(all_sigs),
                                  coverage["divergences_total"],
